@@ -82,13 +82,13 @@ prop("C08", "proof", "Wrap as a derived machine of the parser model; ReadFrom ch
      [S("p-wrap", 300, 5000, ["w.eof", "w.readererr", "w.shrunk"]), S("p-bigbuf", 8, 200, ["p.bigbuf", "p.readfrom.full"]),
       S("p-large", 4, 80, ["p.large.wrap"], hang="120s")],
      "assumes readers never return (0, nil) forever", GEN_RULE, "§8 C08")
-prop("C09", "proof", "suffix.Sort is certified per input against the Lean specification saSpec (sorted permutation, proved unique); LCP (Kasai) and InvertSA are modelled exactly and proved correct in Lean",
-     "Lean 4 proof (Kasai, InvertSA) + per-input certification of Sort against a verified specification",
+prop("C09", "proof", "suffix.Sort is certified per input against the Lean specification saSpec (sorted permutation, proved unique), large inputs by a Lean-verified linear checker run by the model driver; _lcp (Kasai) and InvertSA are translated from lcp.go on every run, proved equal to the model and correct for every previous contents of the output tables",
+     "Lean 4 proof (Kasai, InvertSA, regenerated translation of lcp.go, verified linear suffix-array checker) + per-input certification of Sort against a verified specification",
      [S("s-suffix", 300, 5000, ["s.sort", "s.lcp", "s.sort.long"]), S("s-exhaustive", 256, 2048, ["s.sort"]),
       S("s-budget", 400, 8000, ["s.budget.fail", "s.budget.partialcopy"]), S("s-large", 12, 400, ["s.sort.large"])],
      "DivSufSort internals are not modelled; forced thresholds 1..3 via the verif hook", GEN_RULE, "§8 C09")
-prop("C10", "proof", "scanLCP modelled as the exact stack machine; soundness, completeness/uniqueness and children-first proved in Lean; arbitrary LCP profiles and real texts compared incl. callback order",
-     "Lean 4 invariant proof of the stack machine + differential correspondence",
+prop("C10", "proof", "scanLCP modelled as the exact stack machine; soundness, completeness/uniqueness and children-first proved in Lean for every 0 <= minLen <= maxLen; Segments/scanLCP translated from segments.go on every run and proved equal to the model; arbitrary LCP profiles and real texts compared incl. callback order",
+     "Lean 4 invariant proof of the stack machine + regenerated translation of segments.go proved equal to the model + differential correspondence",
      [S("s-suffix", 400, 6000, ["s.segments.checked", "s.segtext"])],
      "as C01", GEN_RULE, "§8 C10")
 prop("C11", "proof", "DP optimality over stored edges proved in Lean (with the literal relaxation); edges/DP modelled exactly incl. tie-breaking; Go oracle compares with an independent brute-force optimum",
